@@ -11,7 +11,7 @@ PROPERTY = 'C10'
 LEVEL = 'exploration'
 RULE = ('Hypothesis data sets: 40-200 distinct unsorted abscissae, y = smooth signal + pseudo-Gaussian noise of known sigma, 0-4 injected '
         'outliers of 20-50 sigma, invvar = 1/sigma^2 with ~10 % zeros and occasionally negative values, order 2-4, nbkpts or bkspace '
-        'giving 3-8 intervals, upper/lower in [3,6] drawn independently, maxiter in {0,1,2,3,10}, a random permutation.  Oracles: '
+        'giving 3-8 intervals, upper/lower in [3,6] drawn independently or exactly 0 (reject everything on that side), invvar given or omitted (documented default 1/variance; also with integer y), maxiter in {0,1,2,3,10}, a random permutation.  Oracles: '
         '(i) permuted input gives the same curve and the identically permuted mask; (ii) mask False wherever invvar <= 0; (iii) maxiter=0 '
         'curve == independent weighted lstsq on all positively weighted points; (iv) reference procedure fit -> reject beyond '
         '-lower/+upper sigma among good points -> refit (at most maxiter+1 fits) with an independent dense solver on the knots the '
@@ -49,8 +49,21 @@ def case_strategy(draw):
     opt = draw(st.sampled_from(['bkspace', 'nbkpts']))
     kw = dict(nbkpts=draw(st.integers(4, 9))) if opt == 'nbkpts' else dict(bkspace=span / draw(st.integers(3, 8)) * (1 + 0.03 * draw(uf)))
     return dict(x=x, sigma=sigma, amp=amp, ph=ph, noise=noise, outl=outl, osign=osign, zeros=zeros, neg=neg, perm=list(perm),
-                nord=draw(st.sampled_from([4, 3, 2])), kw=kw, upper=3 + 3 * 0.5 * (1 + draw(uf)), lower=3 + 3 * 0.5 * (1 + draw(uf)),
-                maxiter=draw(st.sampled_from([3, 2, 10, 1, 0])), wvary=draw(st.booleans()))
+                nord=draw(st.sampled_from([4, 3, 2])), kw=kw,
+                upper=draw(st.one_of(st.sampled_from([0, 0.0, 5]), uf.map(lambda v: 3 + 3 * 0.5 * (1 + v)), uf.map(lambda v: 3 + 3 * 0.5 * (1 + v)), uf.map(lambda v: 3 + 3 * 0.5 * (1 + v)))),
+                lower=draw(st.one_of(st.sampled_from([0, 0.0, 5]), uf.map(lambda v: 3 + 3 * 0.5 * (1 + v)), uf.map(lambda v: 3 + 3 * 0.5 * (1 + v)), uf.map(lambda v: 3 + 3 * 0.5 * (1 + v)))),
+                maxiter=draw(st.sampled_from([3, 2, 10, 1, 0])), wvary=draw(st.booleans()),
+                weights=draw(st.sampled_from(['invvar', 'invvar', 'invvar', 'none', 'none-integer-y'])))
+
+
+def normalise(case):
+    """A rejection limit of exactly 0 (reject everything on that side) is exercised with maxiter = 0 and the other limit non-zero:
+    with further iterations every pass halves the data until nothing is left, which is not a fit any more."""
+    if case['upper'] == 0 and case['lower'] == 0:
+        case = dict(case, lower=4.0)
+    if case['upper'] == 0 or case['lower'] == 0:
+        case = dict(case, maxiter=0)
+    return case
 
 
 def build(case):
@@ -107,14 +120,27 @@ def reference(t, nord, x, y, iv, lower, upper, maxiter):
 
 def body(case):
     from pydl.pydlutils.bspline import iterfit
+    case = normalise(case)
     x, y, iv = build(case)
     n = len(x)
     nord, kw = case['nord'], case['kw']
     args = dict(nord=nord, upper=case['upper'], lower=case['lower'], maxiter=case['maxiter'], **kw)
+    wmode = case.get('weights', 'invvar')
+    if wmode != 'invvar':
+        # inverse variance omitted: documented default = 1 / (sample variance of y) for every point
+        if wmode == 'none-integer-y':
+            y = np.round(y * 100.0 / case['amp']).astype('i8')          # photon-count like integer data
+        yv = y.astype('f8')
+        iv = np.full(n, 1.0 / (yv.var() * (float(n) / float(n - 1))))
     keep = (x.copy(), y.copy(), iv.copy())
-    sset, mask = call(iterfit, x, y, invvar=iv, **args)
     perm = np.array(case['perm'])
-    sset_p, mask_p = call(iterfit, x[perm].copy(), y[perm].copy(), invvar=iv[perm].copy(), **args)
+    if wmode == 'invvar':
+        sset, mask = call(iterfit, x, y, invvar=iv, **args)
+        sset_p, mask_p = call(iterfit, x[perm].copy(), y[perm].copy(), invvar=iv[perm].copy(), **args)
+    else:
+        sset, mask = call(iterfit, x, y, **args)
+        sset_p, mask_p = call(iterfit, x[perm].copy(), y[perm].copy(), **args)
+    y = y.astype('f8')
     with judge('shape'):
         mask = np.asarray(mask)
         mask_p = np.asarray(mask_p)
@@ -161,7 +187,11 @@ def body(case):
 
 
 def classify(case):
-    out = ['maxiter:%d' % case['maxiter'], 'nord:%d' % case['nord'], 'outliers:%d' % len(case['outl']), 'opt:' + list(case['kw'])[0]]
+    case = normalise(case)
+    out = ['maxiter:%d' % case['maxiter'], 'nord:%d' % case['nord'], 'outliers:%d' % len(case['outl']), 'opt:' + list(case['kw'])[0],
+           'weights:' + case.get('weights', 'invvar')]
+    if case['upper'] == 0 or case['lower'] == 0:
+        out.append('zero-threshold')
     if case['zeros']:
         out.append('zero-weights')
     if case['neg']:
@@ -174,7 +204,8 @@ def classify(case):
 
 
 def nontrivial(case, labels):
-    return (len(case['outl']) >= 1 and bool(case['zeros']) and 'permuted' in labels and case['maxiter'] >= 1 and 'supported' in labels
+    case = normalise(case)
+    return (len(case['outl']) >= 1 and (bool(case['zeros']) or case.get('weights', 'invvar') != 'invvar') and 'permuted' in labels and case['maxiter'] >= 1 and 'supported' in labels
             and 'near-threshold-skipped' not in labels)
 
 
